@@ -6,3 +6,5 @@ package codec
 // are exercised against the v2 module only.
 func (x *runner) runPatchC11() {}
 func (x *runner) runPatchC07() {}
+func (x *runner) runBatchC07() {}
+func (x *runner) runQueryC09() {}
